@@ -604,4 +604,6 @@ def run(ctx):
     ctx.do(r4_9)
     from . import c10, c16
     ctx.do(c16.r16_2)
+    from . import c12
+    ctx.do(c12.r12_5)
     ctx.do(c10.r10_4_units, modules=("mbox", "client"))
